@@ -6,14 +6,19 @@ package based
 //@ pred ChunksAligned(pt) := forall k :: 0 <= k && k < len(pt.list) ==> len(pt.list[k].Txs) == len(pt.list[k].IDs)
 
 //@ func (pt *PersistentPendingTxs) Save() (err)
-//@   modifies nothing
-//@   ensures [any] true
+//@   property C20
+//@   requires [wiring] pt.store != nil
+//@   observe put := call Put
+//@   modifies durable pt.store.kv, durable pt.store.kvHas, durable pt.store.size
+//@   ensures [one-write] put.count <= 1
+//@   ensures [written] err == nil ==> put.count == 1 && pt.store.kvHas[dskey("/sequencer/pendingTxs")]
 
 //@ func (pt *PersistentPendingTxs) Push(txs, ids, timestamp) (err)
 //@   property C20
 //@   requires [aligned] len(txs) == len(ids)
+//@   requires [wiring] pt.store != nil
 //@   observe sv := call Save
-//@   modifies pt.list
+//@   modifies pt.list, durable pt.store.kv, durable pt.store.kvHas, durable pt.store.size
 //@   ensures [appended] len(pt.list) == old(len(pt.list)) + 1 && pt.list[len(pt.list)-1].Txs == txs && pt.list[len(pt.list)-1].IDs == ids
 //@   ensures [saved] sv.count == 1
 
@@ -21,9 +26,9 @@ package based
 //@   property C20
 //@   nopanic
 //@   requires [chunks] ChunksAligned(pt)
-//@   requires [limit] maxBytes < 4611686018427387904
+//@   requires [limit] maxBytes < 4611686018427387904 && pt.store != nil
 //@   observe sv := call Save
-//@   modifies pt.list, heap "[]based.TxsWithTimestamp.Txs", heap "[]based.TxsWithTimestamp.IDs", heap "[]based.TxsWithTimestamp.Timestamp"
+//@   modifies durable pt.store.kv, durable pt.store.kvHas, durable pt.store.size, pt.list, heap "[]based.TxsWithTimestamp.Txs", heap "[]based.TxsWithTimestamp.IDs", heap "[]based.TxsWithTimestamp.Timestamp"
 //@   ensures [bound] total <= maxBytes
 //@   ensures [total-is-sum] total == sumLen(txs, len(txs))
 //@   ensures [count] len(txs) == len(ids)
@@ -37,13 +42,13 @@ package based
 
 //@ func (s *Sequencer) GetNextBatch(ctx, req) (resp, err)
 //@   property C20
-//@   requires [wiring] s.pendingTxs != nil && s.logger != nil && s.store != nil && ChunksAligned(s.pendingTxs)
+//@   requires [wiring] s.pendingTxs != nil && s.logger != nil && s.store != nil && s.pendingTxs.store != nil && ChunksAligned(s.pendingTxs)
 //@   requires [limit] req.MaxBytes < 4611686018427387904
 //@   observe pop := call PopUpToMaxBytes
 //@   observe rwh := call RetrieveWithHelpers
 //@   observe push := call Push
 //@   observe put := call Put
-//@   modifies s.pendingTxs.list, heap "[]based.TxsWithTimestamp.Txs", heap "[]based.TxsWithTimestamp.IDs", heap "[]based.TxsWithTimestamp.Timestamp"
+//@   modifies durable s.store.kv, durable s.store.kvHas, durable s.store.size, durable s.pendingTxs.store.kv, durable s.pendingTxs.store.kvHas, durable s.pendingTxs.store.size, s.pendingTxs.list, heap "[]based.TxsWithTimestamp.Txs", heap "[]based.TxsWithTimestamp.IDs", heap "[]based.TxsWithTimestamp.Timestamp"
 //@   ensures [bound] resp != nil && resp.Batch != nil ==> sumLen(resp.Batch.Transactions, len(resp.Batch.Transactions)) <= ite(req.MaxBytes != 0, req.MaxBytes, 1500000)
 //@   ensures [count] resp != nil && resp.Batch != nil ==> len(resp.Batch.Transactions) == len(resp.BatchData)
 //@   ensures [scan-persisted] err == nil && val(s.Id) == val(req.Id) ==> put.count == 1
